@@ -17,6 +17,7 @@ pub fn replay(input: &str, output: &str) {
     let mut evals = 0u64;
     let mut nontrivial = 0u64;
     let tol = 1e-9;
+    let mut previous_wrapper: Option<Arc<dyn Kinematics>> = None;
     for (id, line) in lines.iter().enumerate() {
         let p = lattice_params(&line["p"]);
         let e = ivec(&line["e"]);
@@ -31,6 +32,10 @@ pub fn replay(input: &str, output: &str) {
         let desc = json!({"layers": line["layers"], "e": e, "inner_e": line["inner_e"]});
         let shape = if layers.is_empty() { "none".to_string() } else { format!("depth{}", layers.len()) };
         if !layers.is_empty() { nontrivial += 1; }
+        // the previously built (differently configured) wrapper is asked first, at the bit-identical joint vector:
+        // results must not leak from one wrapper object to another
+        if let Some(pw) = &previous_wrapper { let _ = guarded(|| (pw.forward(&q), pw.forward_with_joint_poses(&q))); }
+        previous_wrapper = Some(kin.clone());
         let Some((fwd, links)) = guarded(|| (kin.forward(&q), kin.forward_with_joint_poses(&q))) else {
             out.put(json!({"sig": format!("pgram:{}:forward-panics", shape), "detail": desc.to_string()}));
             continue;
